@@ -54,7 +54,7 @@ def _sizes(ck, P, cfg):
         ck.violated("C02.1", "sizes", where, "control %d, anti-message %d, empty event %d bytes are not strictly increasing: the receiver, which tells the kinds apart by size alone, confuses them" % (ctrl, anti, ev0), cfg)
     # what the code computes
     s = P.fn("mpi_remote_anti_msg_send")
-    sz = [X.const_int(X.callee_args(c)[1]) for c in s.calls("MPI_Isend")]
+    sz = [X.const_int(Q.resolve_local(s, X.callee_args(c)[1])) for c in s.calls("MPI_Isend")]
     if sz == [anti]:
         ck.holds("C02.1", "anti-size-macro", s.where, "msg_remote_anti_size() = %d = offsetof(m_seq) - preamble + sizeof(m_seq)" % anti, cfg)
     else:
